@@ -332,6 +332,27 @@ func TestVerifApps(t *testing.T) {
 				outAtReturn, nw := fw.snapshot()
 				time.Sleep(400 * time.Millisecond)
 				final := readAll()
+				if c.Cls == "c11-files-repeat" && ret == "" && atReturn == final {
+					// the window between the return and a late write to a file is a fraction of a millisecond: the same
+					// small case is repeated (fresh directory each time) until a run shows the file incomplete at the return
+					for rep := 0; rep < 300 && atReturn == final; rep++ {
+						dir = t.TempDir()
+						fcfg = &jsonconfig.Config{DisplayMessages: c.Display, RecordMessages: c.Record, MessageLogDirectory: dir}
+						fw = &recWriter{held: make(chan struct{}), release: make(chan struct{})}
+						select {
+						case ret = <-runHandle(in, fw, fcfg, c):
+						case <-time.After(20 * time.Second):
+							ret = "timeout"
+						}
+						atReturn = readAll()
+						outAtReturn, nw = fw.snapshot()
+						if ret != "" {
+							break
+						}
+						time.Sleep(3 * time.Millisecond)
+						final = readAll()
+					}
+				}
 				want := expectedOutput("rtcmfilter", in)
 				recOK := true
 				if c.Record {
